@@ -39,6 +39,7 @@ import AgVerif.Proof.DexGeom
 import AgVerif.Proof.DexFinal
 import AgVerif.Proof.DexXFrame
 import AgVerif.Proof.DexXFinal
+import AgVerif.Proof.DexXPerm
 namespace AgVerif.C07
 open AgVerif.LoadOrder AgVerif.Gen.MapDeps
 
@@ -367,6 +368,21 @@ theorem depsX_final_when_read (file : Bytes) (es pre post : List MapEntry) (e : 
     (hfin : foldSteps (stepX file) init (pre ++ e :: post) = .ok fin) :
     agreeOnX (closure deps e.type) s fin ∧ FrameOKX file e s fin :=
   depsX_final file es pre post e init s fin hord hpre hfin
+
+/-- C07 for the extended loader, file level: two files with the same map_off whose map lists are
+    permutations of each other (distinct types) and whose raw items are the same (`sameItemsX`: every
+    extended item decoder gives the same result in both files — for the two sections with encoded
+    values, whatever the ClassManager lookups return) give the same `parseDexX` result: the same
+    extended view (classes, members, static values, init values, annotations) or the same error. -/
+theorem parseDexX_perm_invariant_files (f g : Bytes) (mapOff : Nat) (rf rg : Bytes) (es es' : List MapEntry)
+    (hf : u32 (f.drop 0x34) = some (mapOff, rf)) (hg : u32 (g.drop 0x34) = some (mapOff, rg))
+    (hmf : readMap f mapOff = .ok es) (hmg : readMap g mapOff = .ok es')
+    (hperm : es'.Perm es) (hdistinct : (es.map (·.type)).Nodup)
+    (hitems : ∀ e ∈ es, sameItemsX g f e) : parseDexX g = parseDexX f := by
+  refine parseDexX_congr f g mapOff rf rg es es' hf hg hmf hmg ?_
+  rw [show loadEntriesX g es' = loadEntriesX g es from
+    maplistX_perm_invariant g es' es hperm ((hperm.map (·.type)).nodup_iff.mpr hdistinct)]
+  exact loadEntriesX_file_congr g f es hitems
 
 example : readsX 0x2005 = [0x0001, 0x2002, 0x0002, 0x0004, 0x0005] ∧ 0x2005 ∈ readsX 0x0006 ∧ 0x2006 ∈ readsX 0x0006 ∧
     (∀ D ∈ readsX 0x2005, D ∈ closure deps 0x2005) := by decide +kernel
